@@ -187,17 +187,24 @@ def gen_case(rng: random.Random, index: int) -> dict:
            (1.999, True), (2.001, True), (2.5, True), (7.0, True))
     for _ in range(rng.randint(8, 30)):
         dt, settle = rng.choice(dts)
-        k = rng.choices(("start", "remove", "state"), (35, 15, 50))[0]
+        k = rng.choices(("start", "remove", "state", "api"), (33, 15, 46, 6))[0]
         op = {"dt": dt, "settle": settle, "op": k}
-        if k in ("start", "remove"):
+        if k in ("start", "remove", "api"):
             op["task"] = rng.randrange(ntasks)
+            if k == "api":
+                # a holder of the Task object (as ExposeSensor is) calls its API directly; done only while it is not registered
+                op["call"] = rng.choice(("restart", "restart", "reconnected", "cancel", "connection_lost"))
         else:
             op["state"] = rng.choice(("CONNECTED", "CONNECTED", "DISCONNECTED", "CONNECTING"))
         ops.append(op)
     ops.append({"dt": rng.choice((0.0, 0.3, 5.0)), "settle": True, "op": "stop", "via": rng.choice(("registry", "xknx"))})
     for _ in range(rng.randint(0, 3)):
-        ops.append({"dt": rng.choice((0.0, 1.0)), "settle": True, "op": "state",
-                    "state": rng.choice(("CONNECTED", "DISCONNECTED", "CONNECTING"))})
+        if rng.random() < 0.25:
+            ops.append({"dt": rng.choice((0.0, 1.0)), "settle": True, "op": "api", "task": rng.randrange(ntasks),
+                        "call": rng.choice(("restart", "reconnected", "cancel"))})
+        else:
+            ops.append({"dt": rng.choice((0.0, 1.0)), "settle": True, "op": "state",
+                        "state": rng.choice(("CONNECTED", "DISCONNECTED", "CONNECTING"))})
     return {"tasks": tasks, "ops": ops, "initial_connected": rng.random() < 0.6}
 
 
@@ -235,6 +242,8 @@ def run_one(ctx, case_seed: str, index: int) -> None:
                 for _ in range(4):
                     await asyncio.sleep(0)
             transition = False
+            performed = False
+            refused = None
             t = loop.time()
             pos = len(log)
             if op["op"] == "start":
@@ -242,6 +251,14 @@ def run_one(ctx, case_seed: str, index: int) -> None:
                 xknx.task_registry.start_task(tasks[op["task"]])
             elif op["op"] == "remove":
                 xknx.task_registry.remove_task(tasks[op["task"]])
+            elif op["op"] == "api":
+                performed = tasks[op["task"]] not in xknx.task_registry.tasks
+                refused = None
+                if performed:
+                    try:
+                        getattr(tasks[op["task"]], op["call"])()
+                    except Exception as exc:  # noqa: BLE001  refusing is fine
+                        refused = type(exc).__name__
             elif op["op"] == "state":
                 new = XknxConnectionState[op["state"]]
                 transition = new != xknx.connection_manager.state
@@ -251,7 +268,7 @@ def run_one(ctx, case_seed: str, index: int) -> None:
                     await xknx.stop()
                 else:
                     xknx.task_registry.stop()
-            marks.append({"pos": pos, "t": t, "op": op, "transition": transition,
+            marks.append({"pos": pos, "t": t, "op": op, "transition": transition, "performed": performed, "refused": refused,
                           "state": xknx.connection_manager.state, "settled": None})
             # settle point (zero virtual time) used for the liveness judgements of this op
             if op["settle"] or op is case["ops"][-1]:
@@ -433,7 +450,9 @@ def judge(ctx, case, log, marks, wit) -> None:
                 else:
                     relevant = False
             elif kind == "state" and m["transition"]:
-                if stopped:
+                if stopped and mode == "unjudged":
+                    pass  # the user restarted the Task object after registry.stop(): nothing of it is judged any more
+                elif stopped:
                     relevant = True
                     new_mode, cause = "expect-none", "registry-stop"
                 elif registered and spec["restart"]:
@@ -451,6 +470,20 @@ def judge(ctx, case, log, marks, wit) -> None:
                     # the window is judged up to this transition, the rest only for "never two instances"
                     relevant = True
                     new_mode = "unjudged"
+            elif kind == "api" and op["task"] == j and m["performed"]:
+                # Task.restart()/reconnected()/cancel()/connection_lost() on a Task object that is not registered: either
+                # refused or a no-op - nothing may run that remove_task / a loss / stop cannot reach any more
+                relevant = True
+                ctx.count("direct_api_calls_on_unregistered_task")
+                if m["refused"]:
+                    ctx.count("direct_api_call_refused_" + m["refused"])
+                if stopped:
+                    # after registry.stop() the code keeps the Task bound to xknx and restart() starts it again: a new user
+                    # action after the stop, recorded only
+                    new_mode = "unjudged"
+                    ctx.count("direct_api_call_after_registry_stop_recorded")
+                else:
+                    new_mode, cause = "expect-none", "direct-api-call-on-unregistered-task"
             elif kind == "stop":
                 relevant = True
                 stopped = True
@@ -490,7 +523,8 @@ def run(ctx):
                 "rearm_from_inside_target", "selfremove_from_inside_target", "target_raised",
                 "target_finished_in_the_instant_of_a_state_change", "no_instance_after_remove_task-from-target",
                 "behaviour_swallow", "behaviour_swallow_await", "behaviour_rearm", "behaviour_selfremove", "behaviour_raises",
-                "wait_for_connection_target_entered_while_connected", "restart_self_from_inside_target", "reconnected_self_from_inside_target", "cancel_self_from_inside_target",
+                "wait_for_connection_target_entered_while_connected", "direct_api_calls_on_unregistered_task",
+                "direct_api_call_refused_RuntimeError", "no_instance_after_direct-api-call-on-unregistered-task", "restart_self_from_inside_target", "reconnected_self_from_inside_target", "cancel_self_from_inside_target",
                 "no_instance_after_cancel-from-target")
     n = ctx.scale(3000, 240000)
     for i in range(n):
